@@ -63,7 +63,9 @@ func TestC02Shapes(t *testing.T) {
 }
 
 // pipe right-hand sides for the C15 shape grid
-var shapePipeRHS = []string{"[0]", "[-1]", "[1]", "length(@)", "[?@]", "[0].k", "type(@)", "[::-1]", "@", "to_array(@)", "[*]", "[]", "[*].k", "not_null(@, `1`)", "[0] || `\"d\"`", "[?k].j", "keys(@)", "[:1]", "*", "[@, @[0]]"}
+var shapePipeRHS = []string{"[0]", "[-1]", "[1]", "length(@)", "[?@]", "[0].k", "type(@)", "[::-1]", "@", "to_array(@)", "[*]", "[]", "[*].k", "not_null(@, `1`)", "[0] || `\"d\"`", "[?k].j", "keys(@)", "[:1]", "*", "[@, @[0]]",
+	// a second projection whose right-hand side is null-sensitive only at its end (what fusing the two stages would get wrong)
+	"[*].k.type(@)", "[*].k.j", "[*].j[0].type(@)", "[*].not_null(k, `0`)", "[*].k.not_null(@, `0`)", "[*].[k]", "[].k.to_string(@)", "[?@].k.type(@)", "[1:].k.type(@)", "*.k.type(@)", "[*].k.abs(@)", "[*].k.{t: type(@)}", "[*].(k || 'd')"}
 
 // TestC15Shapes: every shape-grid expression A piped into every short B:
 // Search('(A) | (B)', d) == Search(B, Search(A, d)).
